@@ -125,18 +125,35 @@ def build_metamodule(H, n, pfx="mm.", nested=False, raised_to=None, hole=False):
     return m
 
 
-def check_metamodule(H, m, q, n, tag="mm", depth=1):
+def stored_values(m):
+    """The MetaModule's own controller values (and, recursively, those of nested MetaModules) as they are BEFORE
+    a save: the writer must neither change them nor write anything else."""
+    out = {"self": dict(m.controller_values)}
+    for x in m.project.modules:
+        if isinstance(x, MetaModule):
+            out[x.index] = stored_values(x)
+    return out
+
+
+def check_metamodule(H, m, q, n, tag="mm", depth=1, stored=None):
     H.check(f"{tag}.is_metamodule", type(q) is MetaModule)
     if type(q) is not MetaModule:
         return
+    if stored is not None:
+        # expected values are the ones taken before the save; the live object must still hold them
+        for name, v in stored["self"].items():
+            H.check(f"{tag}.saving_leaves_stored_value_untouched[{name}]", H.eq(m.controller_values[name], v))
+        m_values = stored["self"]
+    else:
+        m_values = m.controller_values
     H.check(f"{tag}.user_defined_controllers", q.user_defined_controllers == n)
     H.check(f"{tag}.exactly_first_n_exposed", [ud.attached(q) for ud in q.user_defined] == [i < n for i in range(96)])
     for name in ("volume", "input_module", "play_patterns", "bpm", "tpl"):
-        H.check(f"{tag}.ctl[{name}]", H.eq(q.controller_values[name], m.controller_values[name]))
+        H.check(f"{tag}.ctl[{name}]", H.eq(q.controller_values[name], m_values[name]))
     for i in range(n):
         name = f"user_defined_{i + 1}"
-        H.check(f"{tag}.{name}", H.eq(q.controller_values[name], m.controller_values[name]))
-        H.check(f"{tag}.{name}.via_attribute", H.eq(H.getattr(q, name), m.controller_values[name]))
+        H.check(f"{tag}.{name}", H.eq(q.controller_values[name], m_values[name]))
+        H.check(f"{tag}.{name}.via_attribute", H.eq(H.getattr(q, name), m_values[name]))
     H.check(f"{tag}.mappings", H.eq([(x.module, x.controller) for x in q.mappings.values], [(x.module, x.controller) for x in m.mappings.values]))
     H.check(f"{tag}.labels", [ud.label for ud in q.user_defined[:n]] == [ud.label for ud in m.user_defined[:n]])
     for name in MetaModule.options:
@@ -151,7 +168,8 @@ def check_metamodule(H, m, q, n, tag="mm", depth=1):
             continue
         if isinstance(x, MetaModule):
             if depth < 3:
-                check_metamodule(H, x, y, x.user_defined_controllers, tag + ".deep", depth + 1)
+                check_metamodule(H, x, y, x.user_defined_controllers, tag + ".deep", depth + 1,
+                                 stored=stored.get(x.index) if stored is not None else None)
             continue
         rw.check_controllers(H, x, y, f"{tag}.inner[{x.index}]")
         H.check(f"{tag}.inner[{x.index}].name", y.name == x.name)
@@ -190,6 +208,7 @@ def metamodule_roundtrip(H, case):
     else:
         m = build_metamodule(H, n, nested=nested)
     H.check("in_memory_exactly_first_n_exposed", [ud.attached(m) for ud in m.user_defined] == [i < n for i in range(96)])
+    stored = stored_values(m)  # taken BEFORE the save: a writer that "refreshes" the object it saves must not go unnoticed
     if ctx == "synth":
         data = rw.write_container(H, Synth(m))
         q = rw.read_back(H, data).module
@@ -211,7 +230,7 @@ def metamodule_roundtrip(H, case):
     for i in range(n):
         ud = m.user_defined[i]
         t = ud.value_type
-        v = m.controller_values[ud.name]
+        v = stored["self"][ud.name]
         if isinstance(t, Range):
             want = v - t.min if t.min < 0 else v
         elif t is bool:
@@ -222,7 +241,7 @@ def metamodule_roundtrip(H, case):
             H.check(f"CVAL[user_defined_{i + 1}].documented_stored_value", F.dec_i32(cvals[5 + i]) == want)
     chnk = [F.dec_u32(c[1]) for c in sect if bytes(c[0]) == b"CHNK"]
     H.check("chnk_above_every_chunk_number", len(chnk) == 1 and all(F.dec_u32(c[1]) < chnk[0] for c in sect if bytes(c[0]) == b"CHNM"))
-    check_metamodule(H, m, q, n)
+    check_metamodule(H, m, q, n, stored=stored)
     H.cover("reached")
 
 
